@@ -395,7 +395,12 @@ impl Driver {
             let res = catch_unwind_io(AssertUnwindSafe(operate));
             #[cfg(compio_verif)]
             crate::verif::emit(crate::verif::Event::PoolDone { id: verif_id });
-            let _ = completed.send(Entry::new(key.into_inner(), res));
+            if let Err(e) = completed.send(Entry::new(key.into_inner(), res)) {
+                // The driver is gone. Like a `FrozenKey`, the entry must not be
+                // released on this thread: its reference count and the resources
+                // of the operation belong to the driver's thread.
+                std::mem::forget(e.into_inner());
+            }
             waker.wake();
         };
 
